@@ -70,8 +70,8 @@ def model_layers(wd, verdict, thorough):
     a small universe x a menu of operations x every application order; each classic mistake (a variant of the model) must be
     rejected.  L2: every (dataset, operation) instance of that model is replayed on the real engine through the update entry
     points and judged by UpdateTrace.tla; the model's predicted post-state is compared as well (drift is reported, not a verdict)."""
-    # -coverage 1 costs minutes on this operator-heavy specification: only in the thorough tier
-    mc = vlib.tlc_mc(U.FAMILY, "MCUpdate.tla", "MCUpdate_code.cfg", workers=4, timeout=1800, tag="c03-l1", coverage=thorough)
+    # no -coverage: it costs tens of minutes on this operator-heavy specification; non-vacuity comes from the six negative controls
+    mc = vlib.tlc_mc(U.FAMILY, "MCUpdate.tla", "MCUpdate_code.cfg", workers=4, timeout=1800, tag="c03-l1", coverage=False)
     if mc["violated"]:
         raise vlib.ToolError(f"UpdateImpl.tla (code variant) violates {mc['violated']}: the model is out of date with the requirement (not a verdict)")
     controls = {}
@@ -80,7 +80,7 @@ def model_layers(wd, verdict, thorough):
         controls[v] = c["violated"]
         if not c["violated"]:
             raise vlib.ToolError(f"negative control '{v}' ({CONTROLS[v]}) is not rejected by the requirement: the L1 check is vacuous")
-    log(f"L1 UpdateImpl against Update!Effect: {mc['states']} distinct states, violated=None, actions never taken: {[a for a in mc['uncovered'] if a != 'Where2'] if thorough else 'not measured in the quick tier'}; {len(controls)} negative controls rejected")
+    log(f"L1 UpdateImpl against Update!Effect: {mc['states']} distinct states, violated=None, {len(controls)} negative controls rejected")
     beh, st = vlib.tlc_emit(U.FAMILY, "MCUpdate.tla", "MCUpdate_emit.cfg", workers=4, timeout=900, tag="c03-l2-emit")
     uniq = {}
     for b in beh:
